@@ -490,3 +490,73 @@ def reset_completeness(db, cx, rule):
         ok = bool(pa) and bool(pv) and all(f.dominates(a, v) for a in pa for v in pv)
         cx.ob(rule, "reset(): counters zeroed before num_vacancies is set [%s]" % tag, ok,
               "", short(f.loc), why="the other order leaves num_vacancies == 0")
+
+
+D = C + "detail::"
+STATUS = C + "SimTrackView::status"
+
+
+def status_typestate(db, cx, rule, eff):
+    """W2 with constant arguments + W3: which function / step-action order may
+    set which TrackStatus enumerator."""
+    import effects
+    sites = [(f, ev) for f, ev in db.callers_of(STATUS) if len(ev.get("args", [])) == 1]
+    cx.floor("status(x) call sites", len(sites), 5)
+    allowed = {
+        "alive": {D + "PreStepExecutor::operator()"},
+        "killed": {D + "ElossApplier::operator()", D + "TrackingCutExecutor::operator()",
+                   C + "InteractionApplierBaseImpl::operator()", D + "BoundaryExecutor::operator()",
+                   D + "PropagationApplierBaseImpl::operator()"},
+        "errored": {C + "CoreTrackView::apply_errored"},
+        "inactive": {D + "ProcessSecondariesExecutor::operator()"},
+        "initializing": set(),
+    }
+    for f, ev in sites:
+        en = ev["args"][0].get("enum", "")
+        val = en.split("::")[-1] if en else None
+        if "optical" in f.name:
+            continue
+        ok = val in allowed and f.name in allowed[val]
+        cx.ob(rule + "-status-typestate", "status(%s) in %s" % (val or ev["args"][0]["t"], f.name),
+              ok, "call at %s" % short(ev["loc"]), short(ev["loc"]),
+              why="setting this status from this function lets a finished slot be revived or an "
+                  "active one be dropped (status must only move initializing->alive->killed/"
+                  "errored->inactive)")
+    order_allowed = {"alive": {"pre"}, "killed": {"along", "post"}, "inactive": {"end"}}
+    for val, orders in order_allowed.items():
+        for f, ev in sites:
+            pass
+    # reachability by order of the functions that set each value
+    for val, funcs in allowed.items():
+        if not funcs or val == "errored":
+            continue
+        effects.check_orders(cx, db, eff, rule + "-status-orders", "status(%s) setters" % val,
+                             sorted(funcs), {"alive": {"pre"}, "killed": {"along", "post"},
+                                             "inactive": {"end"}}[val],
+                             "within a step the status may only move forward: alive at pre-step, "
+                             "killed along/post, inactive at end")
+    # inactive only on the killed edge
+    for f in db.get(D + "ProcessSecondariesExecutor::operator()"):
+        for (b, i, ev) in f.calls(STATUS):
+            if len(ev.get("args", [])) != 1 or not ev["args"][0].get("enum", "").endswith("inactive"):
+                continue
+            g = False
+            for br in f.branch_blocks(lambda c, _b: c.get("renum", "").endswith("TrackStatus::killed")
+                                      and c.get("op") == "=="):
+                if f.guarded_by_edge((b, i), br, f.cond_polarity_edge(br, True)):
+                    g = True
+            cx.ob(rule + "-status-typestate", "status(inactive) only on the status()==killed edge",
+                  g, "", short(ev["loc"]),
+                  why="freeing a slot whose track is still alive loses the track")
+    # SimTrackView::operator= is the only writer of `initializing`
+    w = field_writers(db, C + "SimStateData::status")
+    check_owners(cx, rule + "-status-typestate", "SimStateData::status", w,
+                 {C + "SimTrackView::operator=", STATUS, "^celeritas::resize$",
+                  C + "CoreState::reset", "^celeritas::SimStateData::operator=$"},
+                 "the status array may only be written through the view or reset")
+    simas = [(f, ev, "call") for f, ev in db.callers_of(C + "SimTrackView::operator=")]
+    cx.floor("SimTrackView::operator= call sites", len(simas), 2)
+    check_owners(cx, rule + "-status-typestate", "SimTrackView::operator= (slot resurrection)", simas,
+                 {D + "InitTracksExecutor::operator()", D + "ProcessSecondariesExecutor::operator()"},
+                 "only track initialisation may put a new track into a slot")
+
